@@ -511,6 +511,15 @@ class JsonMapTypeIO(GraphSONTypeIO):
         return out
 
 
+def _hashable(obj):
+    # blobs deserialize to (unhashable) bytearrays, also inside tuples
+    if isinstance(obj, bytearray):
+        return bytes(obj)
+    if isinstance(obj, tuple):
+        return tuple(_hashable(o) for o in obj)
+    return obj
+
+
 class MapTypeIO(GraphSONTypeIO):
     """In GraphSON3, dict has its own type"""
 
@@ -545,11 +554,7 @@ class MapTypeIO(GraphSONTypeIO):
             itertools.islice(a, 0, None, 2),
             itertools.islice(b, 1, None, 2)
         ):
-            key = reader.deserialize(key)
-            if isinstance(key, bytearray):
-                # blobs deserialize to (unhashable) bytearrays
-                key = bytes(key)
-            out[key] = reader.deserialize(val)
+            out[_hashable(reader.deserialize(key))] = reader.deserialize(val)
         return out
 
 
@@ -600,8 +605,7 @@ class SetTypeIO(GraphSONTypeIO):
     def deserialize(cls, value, reader=None):
         lst = [reader.deserialize(obj) for obj in value]
 
-        # blobs deserialize to (unhashable) bytearrays
-        s = set(bytes(obj) if isinstance(obj, bytearray) else obj for obj in lst)
+        s = set(_hashable(obj) for obj in lst)
         if len(s) != len(lst):
             log.warning("Coercing g:Set to list due to numerical values returned by Java. "
                         "See TINKERPOP-1844 for details.")
